@@ -30,7 +30,7 @@ Leaves(tr) == Root(TreeOf(tr))
 \* ---- factors of one decay node S -> c1 c2 (c1 = helicity child, c2 = opposite child) ----
 \* conj-Wigner-D: D^J_{m, l1-l2}(-phi, theta, 0) with the angle pair named after c1
 NodeD(tr, S) == LET T == TreeOf(tr)  c1 == HelChild(T, S)  c2 == OppChild(T, S) IN
-  <<Spin2(tr, S), Hel2(tr, S), Hel2(tr, c1) - Hel2(tr, c2), AngleName(T, c1)>>
+  <<Spin2(tr, S), Hel2(tr, S), Hel2(tr, c1) - Hel2(tr, c2), AngleName(T, c1), -1, 1>>   \* (-phi, theta, gamma = 0)
 \* canonical basis (Chung eq. 4.32): <L 0; S d | J d> <s1 l1; s2 -l2 | S d>, d = l1 - l2
 NodeCGs(tr, S) == LET T == TreeOf(tr)  c1 == HelChild(T, S)  c2 == OppChild(T, S)
                       nd == tr.nodes[NodeIx(tr, S)]
